@@ -189,9 +189,28 @@ pub proof fn lemma_too_long_mono<T: Eq + PartialOrd + Send + Sync, A: Clone>(g: 
     assert(h0.push(x).contains((v, d)));
 }
 
+// a set of positions below n has at most n members
+pub proof fn lemma_bounded_usize_set_len(s: Set<usize>, n: nat)
+    requires forall|w: usize| s.contains(w) ==> w < n,
+    ensures s.len() <= n,
+    decreases n
+{
+    if n == 0 {
+        assert(s =~= Set::<usize>::empty());
+    } else {
+        let last = (n - 1) as usize;
+        let s2 = s.remove(last);
+        assert forall|w: usize| s2.contains(w) implies w < (n - 1) as nat by { assert(s.contains(w)); }
+        lemma_bounded_usize_set_len(s2, (n - 1) as nat);
+        if !s.contains(last) { assert(s2 =~= s); }
+    }
+}
+
 //@ extract fn src/algorithms/shortest_path/dijkstra.rs dijkstra_basic props=C03,C04,C20
 //@ head
+//@ if core
 #[verifier::exec_allows_no_decreases_clause]
+//@ fi
 //@ rewrite
 ) -> Result<Vec<(usize, ShortestPathInfo<usize>)>, Error>
 //@ with
@@ -244,6 +263,9 @@ let d = core::ops::Neg::neg(fringe_item.distance);
 //@ if main
         assert(heap_view(&fringe).count(it0) > 0);
         assert(in_heap(heap_view(&fringe), source));
+        axiom_f64_zero_not_max();
+        axiom_f64_max_and_zero_le_max();
+        assert(fneg(it0.distance) == 0.0f64);
 //@ fi
     }
 //@ loop 1
@@ -268,8 +290,16 @@ let d = core::ops::Neg::neg(fringe_item.distance);
             forall|w: usize| #[trigger] done.contains(w) ==> w < graph.n() && exists|d: f64| #[trigger] hist.contains((w, d)) && (feq(d, f64_max()) || dist@[w as int] == d),
             closed_upto(*graph, weighted, hist, done, heap_view(&fringe), -1, 0),
             done.contains(source) || in_heap(heap_view(&fringe), source),
+            // [C20.basic.settled_once] a settled node carries a distance other than f64::MAX (no heap item carries f64::MAX, no candidate is above it),
+            // so the `continue` guard skips it for good
+            forall|w: usize| #[trigger] done.contains(w) ==> !feq(dist@[w as int], f64_max()),
+            forall|u: int| 0 <= u < graph.n() ==> fle(#[trigger] seen@[u], f64_max()),
+            forall|it: FringeNode| #[trigger] heap_view(&fringe).count(it) > 0 ==> !feq(fneg(it.distance), f64_max()),
+            done.len() <= graph.n(),
         ensures
             heap_view(&fringe).len() == 0,
+        // [C20.basic.terminates] a step settles a node (each at most once, there are n) or only takes an item off the heap
+        decreases graph.n() - done.len(), heap_view(&fringe).len(),
 //@ before let d = -fringe_item.distance;
         let ghost heap0 = hv;
         proof {
@@ -302,7 +332,9 @@ let d = core::ops::Neg::neg(fringe_item.distance);
             lemma_reported_push(dist0, dist@, h0, v, d);
 //@ if main
             let ghost done0 = done;
+            assert(!done0.contains(v));
             done = done.insert(v);
+            lemma_bounded_usize_set_len(done, graph.n());
             assert(hist[h0.len() as int] == (v, d));
             assert forall|w: usize| #[trigger] done.contains(w) implies w < graph.n() && exists|dd: f64| #[trigger] hist.contains((w, dd)) && (feq(dd, f64_max()) || dist@[w as int] == dd) by {
                 if w != v {
@@ -346,6 +378,10 @@ for adj in row_it: graph.get_successor_nodes_by_index(&v)
                 forall|w: usize| #[trigger] done.contains(w) ==> w < graph.n() && exists|d: f64| #[trigger] hist.contains((w, d)) && (feq(d, f64_max()) || dist@[w as int] == d),
                 closed_upto(*graph, weighted, hist, done, heap_view(&fringe), v as int, row_it.index@ as int),
                 done.contains(source) || in_heap(heap_view(&fringe), source),
+                forall|w: usize| #[trigger] done.contains(w) ==> !feq(dist@[w as int], f64_max()),
+                forall|u: int| 0 <= u < graph.n() ==> fle(#[trigger] seen@[u], f64_max()),
+                forall|it: FringeNode| #[trigger] heap_view(&fringe).count(it) > 0 ==> !feq(fneg(it.distance), f64_max()),
+                done.len() <= graph.n(),
 //@ fi
 //@ before let vu_dist = dist[v] + cost;
             let ghost fringe0 = heap_view(&fringe);
@@ -361,6 +397,9 @@ for adj in row_it: graph.get_successor_nodes_by_index(&v)
                 // a candidate that is not below f64::MAX is the only way an undiscovered successor stays undiscovered
                 assert(hist.contains((v, dist@[v as int])));
                 assert(vu_dist == fadd(dist@[v as int], step_cost(*graph, weighted, v as int, row_it.index@ as int)));
+                axiom_f64_eq_max_not_below(vu_dist);
+                axiom_f64_lt_below_max(vu_dist, seen@[u as int]);
+                axiom_f64_below_max_facts(vu_dist);
                 if !flt(vu_dist, f64_max()) {
                     assert(too_long(*graph, weighted, hist, v, row_it.index@ as int));
                 }
@@ -475,9 +514,14 @@ pub proof fn lemma_shorter_walk<T: Eq + PartialOrd + Send + Sync, A: Clone>(g: G
     assert(shorter_walk_found(g, weighted, source, hist, i, j, d));
 }
 
+// explicit instantiation marker for the two-index invariant on the assignment history (a bare `hist[i], hist[j]` trigger pair instantiates quadratically)
+pub open spec fn hpair(i: int, j: int) -> bool { true }
+
 //@ extract fn src/algorithms/shortest_path/dijkstra.rs dijkstra props=C03,C04,C08,C20
 //@ head
+//@ if core
 #[verifier::exec_allows_no_decreases_clause]
+//@ fi
 //@ rewrite
 ) -> Result<Vec<(usize, ShortestPathInfo<usize>)>, Error>
 //@ with
@@ -559,6 +603,9 @@ for adj in row_it: graph.get_successor_nodes_by_index(&v)
 //@ if main
         assert(heap_view(&fringe).count(it0) > 0);
         assert(in_heap(heap_view(&fringe), source));
+        axiom_f64_zero_not_max();
+        axiom_f64_max_and_zero_le_max();
+        assert(fneg(it0.distance) == 0.0f64);
 //@ fi
     }
 //@ loop 1
@@ -579,7 +626,7 @@ for adj in row_it: graph.get_successor_nodes_by_index(&v)
             chain_ok(*graph, weighted, source, hist),
             forall|u: int| reported(dist@, u) ==> hist.contains((u as usize, #[trigger] dist@[u])),
             forall|j: int| 0 <= j < hist.len() ==> (#[trigger] hist[j]).0 < dist@.len() && (feq(hist[j].1, f64_max()) || dist@[hist[j].0 as int] == hist[j].1),
-            forall|i: int, j: int| 0 <= i < j < hist.len() && (#[trigger] hist[i]).0 == (#[trigger] hist[j]).0 ==> feq(hist[i].1, f64_max()),
+            forall|i: int, j: int| #[trigger] hpair(i, j) ==> (0 <= i < j < hist.len() && hist[i].0 == hist[j].0 ==> feq(hist[i].1, f64_max())),
             forall|it: FringeNode| #[trigger] heap_view(&fringe).count(it) > 0 ==> (it.node_index == source && fneg(it.distance) == 0.0f64) || within_cutoff(cutoff, fneg(it.distance)),
             forall|j: int| 0 <= j < hist.len() ==> ((#[trigger] hist[j]).0 == source && hist[j].1 == 0.0f64) || within_cutoff(cutoff, hist[j].1),
 //@ if main
@@ -591,11 +638,18 @@ for adj in row_it: graph.get_successor_nodes_by_index(&v)
             forall|w: usize| #[trigger] done.contains(w) ==> w < graph.n() && exists|d: f64| #[trigger] hist.contains((w, d)) && (feq(d, f64_max()) || dist@[w as int] == d),
             full ==> closed_upto(*graph, weighted, hist, done, heap_view(&fringe), -1, 0),
             full ==> done.contains(source) || in_heap(heap_view(&fringe), source),
+            // [C20.dijkstra.settled_once] a settled node carries a distance other than f64::MAX, so the `continue` guard skips it for good
+            forall|w: usize| #[trigger] done.contains(w) ==> !feq(dist@[w as int], f64_max()),
+            forall|u: int| 0 <= u < graph.n() ==> fle(#[trigger] seen@[u], f64_max()),
+            forall|it: FringeNode| #[trigger] heap_view(&fringe).count(it) > 0 ==> !feq(fneg(it.distance), f64_max()),
+            done.len() <= graph.n(),
 //@ fi
         ensures
             target.is_some() ==> forall|i: int| 0 <= i < hist.len() - 1 ==> (#[trigger] hist[i]).0 != target.unwrap(),
 //@ if main
             full ==> heap_view(&fringe).len() == 0,
+        // [C20.dijkstra.terminates] a step settles a node (each at most once, there are n) or only takes an item off the heap
+        decreases graph.n() - done.len(), heap_view(&fringe).len(),
 //@ before let d = -fringe_item.distance;
         let ghost heap0 = hv;
         proof {
@@ -625,8 +679,9 @@ for adj in row_it: graph.get_successor_nodes_by_index(&v)
                 lemma_item_mono(*graph, weighted, source, h0, (v, d), it);
             }
             lemma_reported_push(dist0, dist@, h0, v, d);
-            assert forall|i: int, j: int| 0 <= i < j < hist.len() && (#[trigger] hist[i]).0 == (#[trigger] hist[j]).0 implies feq(hist[i].1, f64_max()) by {
-                if j == h0.len() {
+            assert forall|i: int, j: int| #[trigger] hpair(i, j) implies (0 <= i < j < hist.len() && hist[i].0 == hist[j].0 ==> feq(hist[i].1, f64_max())) by {
+                if !(0 <= i < j < hist.len() && hist[i].0 == hist[j].0) {
+                } else if j == h0.len() {
                     assert(hist[i] == h0[i]);
                     assert(feq(h0[i].1, f64_max()) || dist0[h0[i].0 as int] == h0[i].1);
                 } else {
@@ -635,7 +690,9 @@ for adj in row_it: graph.get_successor_nodes_by_index(&v)
             }
 //@ if main
             let ghost done0 = done;
+            assert(!done0.contains(v));
             done = done.insert(v);
+            lemma_bounded_usize_set_len(done, graph.n());
             assert(hist[h0.len() as int] == (v, d));
             assert forall|w: usize| #[trigger] done.contains(w) implies w < graph.n() && exists|dd: f64| #[trigger] hist.contains((w, dd)) && (feq(dd, f64_max()) || dist@[w as int] == dd) by {
                 if w != v {
@@ -671,7 +728,7 @@ for adj in row_it: graph.get_successor_nodes_by_index(&v)
                 chain_ok(*graph, weighted, source, hist),
                 forall|u: int| reported(dist@, u) ==> hist.contains((u as usize, #[trigger] dist@[u])),
                 forall|j: int| 0 <= j < hist.len() ==> (#[trigger] hist[j]).0 < dist@.len() && (feq(hist[j].1, f64_max()) || dist@[hist[j].0 as int] == hist[j].1),
-                forall|i: int, j: int| 0 <= i < j < hist.len() && (#[trigger] hist[i]).0 == (#[trigger] hist[j]).0 ==> feq(hist[i].1, f64_max()),
+                forall|i: int, j: int| #[trigger] hpair(i, j) ==> (0 <= i < j < hist.len() && hist[i].0 == hist[j].0 ==> feq(hist[i].1, f64_max())),
                 forall|it: FringeNode| #[trigger] heap_view(&fringe).count(it) > 0 ==> (it.node_index == source && fneg(it.distance) == 0.0f64) || within_cutoff(cutoff, fneg(it.distance)),
                 forall|j: int| 0 <= j < hist.len() ==> ((#[trigger] hist[j]).0 == source && hist[j].1 == 0.0f64) || within_cutoff(cutoff, hist[j].1),
 //@ if main
@@ -683,6 +740,10 @@ for adj in row_it: graph.get_successor_nodes_by_index(&v)
                 forall|w: usize| #[trigger] done.contains(w) ==> w < graph.n() && exists|d: f64| #[trigger] hist.contains((w, d)) && (feq(d, f64_max()) || dist@[w as int] == d),
                 full ==> closed_upto(*graph, weighted, hist, done, heap_view(&fringe), v as int, row_it.index@ as int),
                 full ==> done.contains(source) || in_heap(heap_view(&fringe), source),
+                forall|w: usize| #[trigger] done.contains(w) ==> !feq(dist@[w as int], f64_max()),
+                forall|u: int| 0 <= u < graph.n() ==> fle(#[trigger] seen@[u], f64_max()),
+                forall|it: FringeNode| #[trigger] heap_view(&fringe).count(it) > 0 ==> !feq(fneg(it.distance), f64_max()),
+                done.len() <= graph.n(),
 //@ fi
 //@ if main
 //@ before let vu_dist = dist[v] + cost;
@@ -693,6 +754,9 @@ for adj in row_it: graph.get_successor_nodes_by_index(&v)
 //@ if main
                 assert(hist.contains((v, dist@[v as int])));
                 assert(vu_dist == fadd(dist@[v as int], step_cost(*graph, weighted, v as int, row_it.index@ as int)));
+                axiom_f64_eq_max_not_below(vu_dist);
+                axiom_f64_lt_below_max(vu_dist, seen@[u as int]);
+                axiom_f64_below_max_facts(vu_dist);
                 if !flt(vu_dist, f64_max()) {
                     assert(too_long(*graph, weighted, hist, v, row_it.index@ as int));
                 }
@@ -716,6 +780,10 @@ for adj in row_it: graph.get_successor_nodes_by_index(&v)
                             lemma_in_heap_insert(fringe0, FringeNode { node_index: u, count: count, distance: fneg(vu_dist) }, x);
                         }
                         lemma_in_heap_insert(fringe0, FringeNode { node_index: u, count: count, distance: fneg(vu_dist) }, u);
+                        assert(!feq(vu_dist, f64_max()));
+                        assert forall|it: FringeNode| #[trigger] heap_view(&fringe).count(it) > 0 implies !feq(fneg(it.distance), f64_max()) by {
+                            if it != (FringeNode { node_index: u, count: count, distance: fneg(vu_dist) }) { assert(fringe0.count(it) > 0); }
+                        }
 //@ fi
                         let itx = FringeNode { node_index: u, count: count, distance: fneg(vu_dist) };
                         assert(fneg(itx.distance) == vu_dist);
@@ -731,6 +799,10 @@ for adj in row_it: graph.get_successor_nodes_by_index(&v)
                             lemma_in_heap_insert(fringe0, FringeNode { node_index: u, count: count, distance: fneg(vu_dist) }, x);
                         }
                         lemma_in_heap_insert(fringe0, FringeNode { node_index: u, count: count, distance: fneg(vu_dist) }, u);
+                        assert(!feq(vu_dist, f64_max()));
+                        assert forall|it: FringeNode| #[trigger] heap_view(&fringe).count(it) > 0 implies !feq(fneg(it.distance), f64_max()) by {
+                            if it != (FringeNode { node_index: u, count: count, distance: fneg(vu_dist) }) { assert(fringe0.count(it) > 0); }
+                        }
 //@ fi
                         let itx = FringeNode { node_index: u, count: count, distance: fneg(vu_dist) };
                         assert(fneg(itx.distance) == vu_dist);
